@@ -82,7 +82,8 @@ RULE = ("cases = (loss kind, dimension, network, equation with 1..3 residual com
         "configured terms, batch); non-trivial = the dynamic term is configured, non-zero, with per-point weighted "
         "squared residuals that are not all equal (so a wrong axis, a wrong mean or a permutation-sensitive "
         "aggregation changes the value), or at least two returned terms are non-zero (so a term dropped from the "
-        "total changes it); distinct = distinct case dicts")
+        "total changes it); distinct = distinct case dicts"
+        " Plus: separable networks (dynamic term over the tensor grid of the batch), scalar weights held in 0-d arrays, weights replaced with eqx.tree_at on the constructed loss.")
 ASSUMPTIONS = [
     "the residual of the user's equation at a point is a function of that point and of the parameters (oracle "
     "table computed with exact polynomial arithmetic; JAX AD of a polynomial network is exact)",
